@@ -59,6 +59,9 @@ def run(rep):
             "samples": [l[:200] for l in lines if l.startswith("   case=")][:4] + [l for l in lines if l.startswith("FINDING class")][:3],
             "summary": [l for l in lines[-12:] if l.strip()][:12], "trusted_base": TRUSTED,
         })
+    # the string-literal theorems are stated over Lexer/LexerModel.v / LexerStrings.v: tie that model to the CURRENT lexer.go (a difference is a broken correspondence)
+    import lexcommon
+    lexcommon.lexer_premise(rep, broken, ())
     verif.report_broken(rep, broken, found)
     rep.assumptions = ["decimal float texts that overflow float64 (1e999) are outside the property's quantifier (finite float64 values); the code prints them as string literals"]
 
